@@ -55,10 +55,23 @@ type Check struct {
 	CaseTimeout time.Duration
 	Budget      map[string]time.Duration
 	NoRlimit    bool
+	// Phases: the enumeration is run once per phase; each phase selects strata (substring match) and may use
+	// another worker executable (e.g. a -race build). nil = one phase over everything with this executable.
+	Phases []Phase
 	// MinOutcomes: vacuity threshold on distinct outcome classes (default 2).
 	MinOutcomes int
 	// Extra evidence computed by parent from summed stats.
 	Extra func(stats map[string]int64, cov map[string]any)
+}
+
+// Phase of a check run.
+type Phase struct {
+	Only     string // strata containing this substring ("" = all)
+	Skip     string // strata containing this substring are left out ("" = none)
+	Exe      string // worker executable relative to /verif/bin ("" = this executable)
+	Procs    int    // GOMAXPROCS of each worker (0 = 1)
+	NoRlimit bool
+	Env      []string
 }
 
 var Registry = map[string]*Check{}
@@ -276,7 +289,7 @@ type workerSummary struct {
 }
 
 func runWorker(c *Check, tier string, seed int64, spec string, startAfter int64) {
-	if !c.NoRlimit {
+	if !c.NoRlimit && os.Getenv("VERIF_NO_RLIMIT") == "" {
 		setRlimit()
 	}
 	debug.SetMaxStack(256 << 20)
@@ -339,6 +352,7 @@ func runWorker(c *Check, tier string, seed int64, spec string, startAfter int64)
 	}()
 
 	only := os.Getenv("VERIF_ONLY")
+	skip := os.Getenv("VERIF_SKIP")
 	if s := os.Getenv("VERIF_CASE_TIMEOUT_S"); s != "" {
 		if n, err := strconv.Atoi(s); err == nil {
 			caseTimeout = time.Duration(n) * time.Second
@@ -356,6 +370,9 @@ func runWorker(c *Check, tier string, seed int64, spec string, startAfter int64)
 			return
 		}
 		if only != "" && !strings.Contains(stratum, only) {
+			return
+		}
+		if skip != "" && strings.Contains(stratum, skip) {
 			return
 		}
 		if sum.Evaluations&63 == 0 && time.Since(start) > budget {
@@ -462,6 +479,8 @@ type parentState struct {
 
 func classifyFatal(stderr string, code int) string {
 	switch {
+	case strings.Contains(stderr, "WARNING: DATA RACE"):
+		return "data-race: " + raceSite(stderr)
 	case strings.Contains(stderr, "WATCHDOG"):
 		return "hang: case exceeded watchdog"
 	case strings.Contains(stderr, "HEAPWATCH"), strings.Contains(stderr, "out of memory"), strings.Contains(stderr, "cannot allocate memory"):
@@ -479,6 +498,31 @@ func classifyFatal(stderr string, code int) string {
 	return fmt.Sprintf("fatal: worker exit %d", code)
 }
 
+// raceSite extracts the first repository frames of both accesses of a race report.
+func raceSite(stderr string) string {
+	var frames []string
+	for _, ln := range strings.Split(stderr, "\n") {
+		ln = strings.TrimSpace(ln)
+		if strings.HasPrefix(ln, "github.com/sealdice/dicescript.") || strings.HasPrefix(ln, "golang.org/x/exp/rand.") {
+			fn := ln
+			if i := strings.LastIndex(fn, "("); i > 0 {
+				fn = fn[:i]
+			}
+			fn = strings.TrimPrefix(fn, "github.com/sealdice/dicescript.")
+			if len(frames) == 0 || frames[len(frames)-1] != fn {
+				frames = append(frames, fn)
+			}
+			if len(frames) >= 2 {
+				break
+			}
+		}
+		if strings.HasPrefix(ln, "Goroutine") && len(frames) > 0 {
+			break
+		}
+	}
+	return strings.Join(frames, " <- ")
+}
+
 func runParent(c *Check, tier string, seed int64) int {
 	t0 := time.Now()
 	self, _ := os.Executable()
@@ -492,38 +536,45 @@ func runParent(c *Check, tier string, seed int64) int {
 		wn = 1
 	}
 	st := &parentState{viol: map[string][]Violation{}}
-	var wg sync.WaitGroup
-	for wi := 0; wi < wn; wi++ {
-		wg.Add(1)
-		go func(wi int) {
-			defer wg.Done()
-			startAfter := int64(-1)
-			for attempt := 0; attempt < 200; attempt++ {
-				done, last, why := superviseWorker(c, self, tier, seed, wi, wn, startAfter, st)
-				if done {
-					return
-				}
-				// fatal exit attributed to case `last`
-				st.mu.Lock()
-				st.fatals++
-				st.mu.Unlock()
-				if last < 0 || last <= startAfter {
-					st.mu.Lock()
-					st.machineErr = append(st.machineErr, fmt.Sprintf("worker %d died outside a case: %s", wi, why))
-					st.mu.Unlock()
-					return
-				}
-				raw := findCase(c, tier, seed, last)
-				fmt.Fprintf(os.Stderr, "worker %d died on case #%d (%s): %s\n", wi, last, why, trunc(string(raw), 300))
-				v := Violation{Signature: why, What: fmt.Sprintf("worker process died while running case #%d: %s", last, why), Case: raw}
-				st.mu.Lock()
-				st.viol[v.Signature] = append(st.viol[v.Signature], v)
-				st.mu.Unlock()
-				startAfter = last
-			}
-		}(wi)
+	phases := c.Phases
+	if len(phases) == 0 {
+		phases = []Phase{{}}
 	}
-	wg.Wait()
+	for _, ph := range phases {
+		ph := ph
+		var wg sync.WaitGroup
+		for wi := 0; wi < wn; wi++ {
+			wg.Add(1)
+			go func(wi int) {
+				defer wg.Done()
+				startAfter := int64(-1)
+				for attempt := 0; attempt < 200; attempt++ {
+					done, last, why := superviseWorker(c, self, tier, seed, wi, wn, startAfter, st, ph)
+					if done {
+						return
+					}
+					// fatal exit attributed to case `last`
+					st.mu.Lock()
+					st.fatals++
+					st.mu.Unlock()
+					if last < 0 || last <= startAfter {
+						st.mu.Lock()
+						st.machineErr = append(st.machineErr, fmt.Sprintf("worker %d died outside a case: %s", wi, why))
+						st.mu.Unlock()
+						return
+					}
+					raw := findCase(c, tier, seed, last)
+					fmt.Fprintf(os.Stderr, "worker %d died on case #%d (%s): %s\n", wi, last, why, trunc(string(raw), 300))
+					v := Violation{Signature: why, What: fmt.Sprintf("worker process died while running case #%d: %s", last, why), Case: raw}
+					st.mu.Lock()
+					st.viol[v.Signature] = append(st.viol[v.Signature], v)
+					st.mu.Unlock()
+					startAfter = last
+				}
+			}(wi)
+		}
+		wg.Wait()
+	}
 	return finish(c, tier, seed, st, time.Since(t0))
 }
 
@@ -539,14 +590,27 @@ func findCase(c *Check, tier string, seed int64, want int64) json.RawMessage {
 	return out
 }
 
-func superviseWorker(c *Check, self, tier string, seed int64, wi, wn int, startAfter int64, st *parentState) (done bool, last int64, why string) {
+func superviseWorker(c *Check, self, tier string, seed int64, wi, wn int, startAfter int64, st *parentState, ph Phase) (done bool, last int64, why string) {
 	args := []string{c.ID, "--tier", tier, "--worker", fmt.Sprintf("%d/%d", wi, wn), "--start-after", strconv.FormatInt(startAfter, 10)}
+	if ph.Exe != "" {
+		self = filepath.Join(VerifDir, "bin", ph.Exe)
+	}
 	cmd := exec.Command(self, args...)
 	gmp := "GOMAXPROCS=1"
+	if ph.Procs > 0 {
+		gmp = "GOMAXPROCS=" + strconv.Itoa(ph.Procs)
+	}
 	if c.Whole != nil {
 		gmp = "GOMAXPROCS=" + strconv.Itoa(runtime.NumCPU())
 	}
 	cmd.Env = append(os.Environ(), gmp, "VERIF_SEED="+strconv.FormatInt(seed, 10), "GOTRACEBACK=single")
+	if ph.Only != "" || ph.Skip != "" || len(c.Phases) > 0 {
+		cmd.Env = append(cmd.Env, "VERIF_ONLY="+ph.Only, "VERIF_SKIP="+ph.Skip)
+	}
+	if ph.NoRlimit {
+		cmd.Env = append(cmd.Env, "VERIF_NO_RLIMIT=1")
+	}
+	cmd.Env = append(cmd.Env, ph.Env...)
 	stdout, _ := cmd.StdoutPipe()
 	var stderr limitedBuf
 	cmd.Stderr = &stderr
@@ -570,7 +634,6 @@ func superviseWorker(c *Check, self, tier string, seed int64, wi, wn int, startA
 					if len(st.viol[v.Signature]) < 50 {
 						st.viol[v.Signature] = append(st.viol[v.Signature], v)
 					} else {
-						st.viol[v.Signature][0].What = st.viol[v.Signature][0].What // keep
 						st.viol[v.Signature] = append(st.viol[v.Signature], Violation{Signature: v.Signature})
 					}
 					st.mu.Unlock()
